@@ -194,8 +194,9 @@ def problems(draw, tier="quick"):
     # on a fresh point with equal weight; "yard" = (almost) everybody at the depot's own address, which yields
     # zero-length routes, exact-zero arrival times and insertion-cost ties
     geometry = draw(st.sampled_from(["spread", "clustered", "yard", "spread", "clustered"]))
+    k = draw(st.sampled_from([3, 2, 4, 1, 2, 3]))
     multi_rate = draw(st.sampled_from([2, 1, 0, 2, 3]))  # how many of 6 draws are multi-vehicle
-    req_choices = [2, 2, 3][:multi_rate] + [1] * (6 - multi_rate)
+    req_choices = ([3, 2, 3] if k >= 3 else [2, 2, 3])[:multi_rate] + [1] * (6 - multi_rate)
     custs = []
     for _ in range(n):
         kind = draw(st.sampled_from(["open", "open", "wide", "tight", "closing"]))
@@ -231,7 +232,6 @@ def problems(draw, tier="quick"):
                 "req": draw(st.sampled_from(req_choices)),
             }
         )
-    k = draw(st.sampled_from([2, 3, 1, 2, 3, 4]))
     capkind = draw(st.sampled_from(["tight", "inf", "small", "tight", "mixed", "inf", "tight"]))
     if capkind == "inf":
         caps = [None] * k
@@ -673,6 +673,7 @@ class VRPExec:
         else:
             raise AssertionError(name)
         stale = set()
+        before_routes = [list(r) for r in self.state.routes]
         if name == "sync_aware_insertion":  # label only: multi-vehicle customers that were sync-placed earlier, then removed
             stale = {c for c in M.multi if c not in self.routed and c in getattr(self.state, "sync_assignments", {})}
         self.state = new
@@ -680,6 +681,14 @@ class VRPExec:
         if stale - info["routed"]:
             ctx.label("sync-insertion-fails-for-a-customer-it-placed-earlier")
             ctx.count("sync-insertion-fails-for-a-customer-it-placed-earlier")
+        if name == "route_removal":  # label only: which routes were emptied, and did a shared customer sit on a kept route
+            emptied = [v for v, r in enumerate(before_routes) if r and not new.routes[v]]
+            if len(emptied) >= 2:
+                ctx.label("route_removal-empties-2+-routes")
+                gone = {c for v in emptied for c in before_routes[v]}
+                if any(c in gone for v, r in enumerate(before_routes) if v not in emptied for c in r):
+                    ctx.label("route_removal-2+-with-customer-shared-with-a-kept-route")
+                    ctx.count("route_removal-2+-with-customer-shared-with-a-kept-route")
         before, after = self.routed, info["routed"]
         self.routed = after
         ctx.count("steps:" + name)
@@ -744,7 +753,7 @@ def vrp_machine(ctx, tier):
             self.step("related_removal", seed=seed, degree=degree)
 
         @precondition(has_routed)
-        @rule(seed=seeds, n_routes=st.sampled_from([None, 1, 1, 2, 3, 4]))
+        @rule(seed=seeds, n_routes=st.sampled_from([2, None, 1, 2, 3, 4]))
         def route_removal(self, seed, n_routes):
             self.step("route_removal", seed=seed, n_routes=n_routes)
 
@@ -774,13 +783,13 @@ def vrp_machine(ctx, tier):
         @precondition(lambda self: has_routed(self) and len(self.hist) <= 27)
         @rule(
             seed=seeds,
-            removal=st.sampled_from(["random_removal", "worst_removal", "related_removal", "route_removal"]),
+            removal=st.sampled_from(["route_removal", "random_removal", "worst_removal", "related_removal", "route_removal"]),
             degree=st.sampled_from([0.25, 0.5, 0.3, 0.75]),
             repair=st.sampled_from(["greedy_insertion", "regret_insertion"]),
         )
         def alns_round(self, seed, removal, degree, repair):
             if removal == "route_removal":
-                self.step(removal, seed=seed, n_routes=1)
+                self.step(removal, seed=seed, n_routes=1 + seed % 3)
             else:
                 self.step(removal, seed=seed, degree=degree)
             if repair == "regret_insertion":
